@@ -297,5 +297,7 @@ func appendArrayElemIndent(ctx *encoder.RuntimeContext, code *encoder.Opcode, b 
 }
 
 func appendMapKeyIndent(ctx *encoder.RuntimeContext, code *encoder.Opcode, b []byte) []byte {
-	return appendIndent(ctx, b, code.Indent)
+	// code is the map's key operation, which sits at the level of the braces:
+	// the members are one level deeper (as appendMapKeyValue writes them)
+	return appendIndent(ctx, b, code.Indent+1)
 }
